@@ -20,6 +20,7 @@ class Stats:
         self.harness_errors = []
         self.groups = 0
         self._nt = set()
+        self._cls = {}
 
     # -- helpers used by explorers
     def nt(self, key):
@@ -41,7 +42,9 @@ class Stats:
 
     def violation(self, site, kind, case, observed=None, expected=None, detail=None):
         self.nviol += 1
-        if len(self.violations) < self.MAXV:
+        k = f"{site}|{kind}"
+        self._cls[k] = self._cls.get(k, 0) + 1
+        if self._cls[k] <= 25 and len(self.violations) < self.MAXV:
             self.violations.append({"site": site, "kind": kind, "case": case, "observed": observed,
                                     "expected": expected, "detail": detail})
 
@@ -54,6 +57,7 @@ class Stats:
     def pack(self):
         d = dict(self.__dict__)
         d.pop("_nt")
+        d.pop("_cls")
         d["outcomes"] = list(self.outcomes)
         return json.dumps(d, default=str)
 
@@ -76,8 +80,11 @@ class Stats:
         for s in o.samples:
             self.sample(s, cap=6)
         self.nviol += o.nviol
-        room = 2000 - len(self.violations)
-        self.violations.extend(o.violations[:max(room, 0)])
+        for v in o.violations:
+            k = f"{v.get('site')}|{v.get('kind')}"
+            self._cls[k] = self._cls.get(k, 0) + 1
+            if self._cls[k] <= 300:
+                self.violations.append(v)
         self.caps.extend(o.caps[: max(0, 50 - len(self.caps))])
         for k, v in o.extra.items():
             self.extra[k] = self.extra.get(k, 0) + v
